@@ -17,10 +17,14 @@ func genPolicyAndInput(t *rapid.T, so *SpecOpts) *Case {
 	spec := genSpec(t, so)
 	m := BuildModel(spec)
 	c := &Case{Spec: spec}
-	if rapid.IntRange(0, 4).Draw(t, "treeOrSoup") == 0 {
+	switch k := rapid.IntRange(0, 9).Draw(t, "treeOrSoup"); {
+	case k <= 1:
 		c.Kind = "tree"
 		c.Input = BStr(genTree(t, m, nil))
-	} else {
+	case k == 2:
+		c.Kind = "corpus"
+		c.Input = BStr(genCorpusMutation(t))
+	default:
 		c.Kind = "soup"
 		c.Input = BStr(genSoup(t, m, nil))
 	}
